@@ -290,6 +290,11 @@ class BuiltinsMixin:
             return [(s, self.lift(obj.ty.kind in ("str", "seq", "set", "dict", "tuple")))]
         raise Unsupported("hasattr")
 
+    def bi_range(self, s, args, kw, node):
+        a = [x.t if not x.is_py else z3.IntVal(x.t) for x in args]
+        lo, hi = (z3.IntVal(0), a[0]) if len(a) == 1 else (a[0], a[1])
+        return [(s, py(("range", lo, hi)))]
+
     def bi_print(self, s, args, kw, node):
         return [(s, Val(NONE, None))]
 
@@ -698,6 +703,13 @@ class BuiltinsMixin:
     def comp_instances(self, generators, st):
         """Expand comprehension generators into symbolic instances (state-with-env, bound vars, guard)."""
         insts = [Instance(st.copy(), [], z3.BoolVal(True))]
+        self.binder_depth += 1
+        try:
+            return self._comp_instances(generators, insts)
+        finally:
+            self.binder_depth -= 1
+
+    def _comp_instances(self, generators, insts):
         for gen in generators:
             if gen.is_async:
                 raise Unsupported("async comprehension")
@@ -731,10 +743,18 @@ class BuiltinsMixin:
             else:
                 self.assign_target(s2, target, self.dict_get(d, kv))
             return [(s2, [k], self.dict_has(d, kv))]
+        if it.is_py and isinstance(it.t, tuple) and it.t and it.t[0] == "range":
+            lo, hi = it.t[1], it.t[2]
+            j = z3.Int(fresh_name("cr"))
+            s2 = st.copy()
+            self.assign_target(s2, target, Val(INT, j))
+            return [(s2, [j], z3.And(lo <= j, j < hi))]
         if it.is_py:
             seq = it.t
             if isinstance(seq, dict):
                 seq = list(seq.keys())
+            if isinstance(seq, range):
+                seq = list(seq)
             if not isinstance(seq, (list, tuple, set, frozenset)):
                 raise Unsupported(f"iteration over python object {type(seq)}")
             if isinstance(seq, (set, frozenset)):
@@ -745,6 +765,14 @@ class BuiltinsMixin:
                 res.append((s2, [], z3.BoolVal(True)))
             return res
         k = it.ty.kind
+        if k == "set":
+            elems = self.explicit_elements(it)
+            if elems is not None:
+                for x in elems:
+                    s2 = st.copy()
+                    self.assign_target(s2, target, x)
+                    res.append((s2, [], z3.BoolVal(True)))
+                return res
         if k == "set" or k == "dict":
             et = it.ty.args[0]
             e = z3.Const(fresh_name("ce"), self.reg.sort(et))
@@ -765,38 +793,144 @@ class BuiltinsMixin:
             return res
         raise Unsupported(f"iteration over {it.ty}")
 
+    def explicit_elements(self, setv: Val):
+        """Elements of a set term built as Store(...Store(K(false), a, true)..., z, true), else None."""
+        t, out = setv.t, []
+        while True:
+            if z3.is_store(t) and z3.is_true(t.arg(2)):
+                out.append(Val(setv.ty.args[0], t.arg(1)))
+                t = t.arg(0)
+                continue
+            if z3.is_const_array(t) and z3.is_false(t.arg(0)):
+                return list(reversed(out))
+            return None
+
     def mk_pair(self, a, b):
         return py((a, b))
 
+    def ev_under_binder(self, node, st):
+        self.binder_depth += 1
+        try:
+            return self.ev_pure(node, st)
+        finally:
+            self.binder_depth -= 1
+
     def comp_set(self, elt, generators, st, flatten=False) -> Val:
+        """{elt | generators}.  Encodings, in order of preference:
+        (1) identity element over one symbolic set with a guard -> array lambda (quantifier-free membership);
+        (2) otherwise a canonical constant named after the alpha-normalised defining terms (so the same
+            comprehension over the same heap is the same term) with the two membership axioms."""
         insts = self.comp_instances(generators, st)
-        vals = [(i, self.ev_pure(elt, i.st)) for i in insts]
+        vals = [(i, self.ev_under_binder(elt, i.st)) for i in insts]
         vals = [(i, v if not v.is_py else self.lift(v.t)) for i, v in vals]
         if not vals:
             return Val(TSet(PY), None, {"empty": True})
         ety = vals[0][1].ty
         if ety.kind == "py":
             raise Unsupported("set comprehension over python objects")
-        r = self.fresh(TSet(ety), "comp")
-        y = z3.Const(fresh_name("cy"), self.reg.sort(ety))
-        alts = []
+        vals = [(i, self.coerce(v, ety)) for i, v in vals]
+        if len(vals) == 1 and len(vals[0][0].bound) == 1 and vals[0][1].t.eq(vals[0][0].bound[0]):
+            inst = vals[0][0]
+            return Val(TSet(ety), z3.Lambda(inst.bound, inst.guard))
+        if all(not i.bound for i, _ in vals):
+            r = self.empty_set(ety)
+            for i, v in vals:
+                g = z3.simplify(i.guard)
+                r = Val(r.ty, z3.If(g, z3.Store(r.t, v.t, z3.BoolVal(True)), r.t)) if not z3.is_true(g) else self.set_add(r, v)
+            return r
+        # canonical naming
+        import hashlib
+        parts = []
         for inst, v in vals:
-            v = self.coerce(v, ety)
-            body = z3.Implies(inst.guard, r.t[v.t])
-            self.axioms.append(z3.ForAll(inst.bound, body) if inst.bound else body)
-            ex = z3.And(inst.guard, v.t == y)
-            alts.append(z3.Exists(inst.bound, ex) if inst.bound else ex)
-        self.axioms.append(z3.ForAll([y], z3.Implies(r.t[y], z3.Or(*alts)), patterns=[r.t[y]]))
+            subs = [(b, z3.Const(f"cb{k}_{b.sort()}", b.sort())) for k, b in enumerate(inst.bound)]
+            parts.append(z3.substitute(inst.guard, *subs).sexpr() + "|" + z3.substitute(v.t, *subs).sexpr()
+                         + "|" + ",".join(str(b.sort()) for b in inst.bound))
+        key = hashlib.sha1(("||".join(parts) + str(self.reg.sort(ety))).encode()).hexdigest()[:16]
+        hit = self._comp_cache.get(key)
+        if hit is None:
+            r = Val(TSet(ety), z3.Const("comp_" + key, self.reg.sort(TSet(ety))))
+            y = z3.Const(fresh_name("cy"), self.reg.sort(ety))
+            axs, alts = [], []
+            for inst, v in vals:
+                body = z3.Implies(inst.guard, r.t[v.t])
+                axs.append(z3.ForAll(inst.bound, body) if inst.bound else body)
+                ex = z3.And(inst.guard, v.t == y)
+                alts.append(z3.Exists(inst.bound, ex) if inst.bound else ex)
+            axs.append(z3.ForAll([y], z3.Implies(r.t[y], z3.Or(*alts)), patterns=[r.t[y]]))
+            hit = (r, axs)
+            self._comp_cache[key] = hit
+        r, axs = hit
+        have = {id(a) for a in self.axioms}
+        for a in axs:
+            if id(a) not in have:
+                self.axioms.append(a)
         return r
 
     def ev_SetComp(self, n, st):
-        return [(st, self.comp_set(n.elt, n.generators, st))]
+        return [(s, self.comp_set(m.elt, m.generators, s)) for s, m in self.hoist(n, st)]
 
     def ev_ListComp(self, n, st):
-        return [(st, self.comp_list(n.elt, n.generators, st))]
+        return [(s, self.comp_list(m.elt, m.generators, s)) for s, m in self.hoist(n, st)]
 
     def ev_GeneratorExp(self, n, st):
-        return [(st, self.comp_list(n.elt, n.generators, st))]
+        return [(s, self.comp_list(m.elt, m.generators, s)) for s, m in self.hoist(n, st)]
+
+    def hoist(self, comp, st):
+        """Evaluate binder-independent calls of *idempotent* contracted getters once, in the enclosing state, and
+        replace them by a temporary inside the comprehension (modelling assumption recorded per contract)."""
+        if self.binder_depth > 0:
+            return [(st, comp)]
+        import copy, inspect as _insp
+        targets = set()
+        for g in comp.generators:
+            targets |= {x.id for x in ast.walk(g.target) if isinstance(x, ast.Name)}
+        cands = []
+        for node in ast.walk(comp):
+            if isinstance(node, ast.Attribute) and isinstance(node.ctx, ast.Load):
+                if any(isinstance(x, ast.Name) and x.id in targets for x in ast.walk(node.value)):
+                    continue
+                if any(isinstance(x, (ast.Call, ast.NamedExpr)) for x in ast.walk(node.value)):
+                    continue
+                try:
+                    base = self.ev_pure(node.value, st)
+                except Unsupported:
+                    continue
+                if base.is_py or base.ty.kind not in ("ref", "data"):
+                    continue
+                cls = self.reg.pyclass.get(base.ty.name)
+                if cls is None:
+                    continue
+                val = _insp.getattr_static(cls, node.attr, None)
+                if isinstance(val, property):
+                    c = self.contracts.get(self.qualname_of(val.fget))
+                    if c is not None and getattr(c, "idempotent", False):
+                        cands.append(node)
+        if not cands:
+            return [(st, comp)]
+        new = copy.deepcopy(comp)
+        # map by source position
+        keyed = {(c.lineno, c.col_offset, c.end_col_offset): c for c in cands}
+        outs = [(st, {})]
+        for key, c in keyed.items():
+            nxt = []
+            for s, names in outs:
+                for s2, v in self.ev(c, s):
+                    tmp = fresh_name("hoisted_" + c.attr)
+                    s2.env[tmp] = v
+                    nxt.append((s2, {**names, key: tmp}))
+            outs = nxt
+        res = []
+        for s, names in outs:
+            m = copy.deepcopy(comp)
+
+            class R(ast.NodeTransformer):
+                def visit_Attribute(self_, node):
+                    k = (node.lineno, node.col_offset, node.end_col_offset)
+                    if k in names:
+                        return ast.copy_location(ast.Name(id=names[k], ctx=ast.Load()), node)
+                    return self_.generic_visit(node)
+            res.append((s, R().visit(m)))
+        return res
 
     def comp_list(self, elt, generators, st) -> Val:
         # concrete unrolling when every iterable is python-level
@@ -814,7 +948,7 @@ class BuiltinsMixin:
         if len(generators) == 1 and not generators[0].ifs and len(insts) == 1 and len(insts[0].bound) == 1 \
                 and insts[0].bound[0].sort() == z3.IntSort():
             inst = insts[0]
-            v = self.ev_pure(elt, inst.st)
+            v = self.ev_under_binder(elt, inst.st)
             if v.is_py:
                 v = self.lift(v.t)
             it = self.ev_pure(generators[0].iter, st)
@@ -846,11 +980,17 @@ class BuiltinsMixin:
         raise Unsupported("dict comprehension over symbolic collection")
 
     def call_on_generator(self, fname, gen, st, node):
+        outs = []
+        for s, g in self.hoist(gen, st):
+            outs += self._call_on_generator(fname, g, s, node)
+        return outs
+
+    def _call_on_generator(self, fname, gen, st, node):
         if fname in ("any", "all"):
             insts = self.comp_instances(gen.generators, st)
             parts = []
             for i in insts:
-                t = self.truth(self.ev_pure(gen.elt, i.st))
+                t = self.truth(self.ev_under_binder(gen.elt, i.st))
                 if fname == "any":
                     b = z3.And(i.guard, t)
                     parts.append(z3.Exists(i.bound, b) if i.bound else b)
@@ -874,14 +1014,17 @@ class BuiltinsMixin:
 
     def join_generator(self, sepnode, gen, st, node):
         outs = []
-        for s, sep in self.ev(sepnode, st):
-            lst = self.comp_list(gen.elt, gen.generators, s)
-            outs += self.m_str_join(s, self._sarg(sep), [lst], {}, node, None)
+        for s0, sep in self.ev(sepnode, st):
+            for s, g in self.hoist(gen, s0):
+                lst = self.comp_list(g.elt, g.generators, s)
+                outs += self.m_str_join(s, self._sarg(sep), [lst], {}, node, None)
         return outs
 
     # ---- spec functions and special forms --------------------------------------------------------
     def call_spec(self, s, func, args, kwargs, node):
         info = getattr(func, "__pyvc_spec__", None) or {}
+        if info.get("opaque"):
+            return [(s, self.opaque_app(func, args, s))]
         if not info.get("recursive"):
             return self.inline_function(s, func, args, kwargs, node)
         fnode, module = self.source.function(func)
@@ -922,6 +1065,85 @@ class BuiltinsMixin:
         return [(s, res)]
 
 
+def _opaque_app(self, func, args, st):
+    """Uninterpreted application; the heap fields the body reads (declared in reads=) are explicit arguments."""
+    fnode, module = self.source.function(func)
+    tys = [self.reg.parse(a.annotation) for a in fnode.args.args]
+    rty = self.reg.parse(fnode.returns)
+    heaps = []
+    for spec_ in func.__pyvc_spec__.get("reads", []):
+        cls, fld = spec_.split(".")
+        heaps.append(self.heap_array(st, cls, fld))
+    uf = self.uf("opq_" + func.__name__, [self.reg.sort(t) for t in tys] + [h.sort() for h in heaps], self.reg.sort(rty))
+    cargs = [self.coerce(a, t) for a, t in zip(args, tys)]
+    return Val(rty, uf(*([a.t for a in cargs] + heaps)))
+
+
+BuiltinsMixin.opaque_app = _opaque_app
+
+
+def _sf_reveal(self, n, st):
+    call = n.args[0]
+    if not isinstance(call, ast.Call):
+        raise Unsupported("reveal(f(args))")
+    if self.using_lemma:
+        return [(st, Val(BOOL, z3.BoolVal(True)))]   # the definition is a fact, not a hypothesis of the instance
+    f = self.ev_pure(call.func, st)
+    args = [self.ev_under_binder(a, st) if self.binder_depth else self.ev_pure(a, st) for a in call.args]
+    app = self.opaque_app(f.t, args, st)
+    fnode, module = self.source.function(f.t)
+    tys = [self.reg.parse(a.annotation) for a in fnode.args.args]
+    cargs = [self.coerce(a, t) for a, t in zip(args, tys)]
+    mark = len(self.abrupt)
+    saved_reads = self.heap_reads
+    self.heap_reads = set()
+    outs = self._inline(st.copy(), fnode, f.t, module, cargs, {}, None, f.t.__qualname__)
+    undeclared = self.heap_reads - set(f.t.__pyvc_spec__.get("reads", []))
+    self.heap_reads = saved_reads | self.heap_reads
+    if undeclared:
+        raise Unsupported(f"opaque spec function {f.t.__name__} reads heap fields not declared in reads=: {sorted(undeclared)}")
+    if len(self.abrupt) > mark:
+        del self.abrupt[mark:]
+        raise Unsupported("revealed spec function may raise")
+    body = self.coerce(self.merge(outs), app.ty)
+    eqn = app.t == body.t
+    if self.binder_depth:
+        return [(st, Val(BOOL, eqn))]        # under a binder the equation must stay inside the quantifier
+    self.axioms.append(eqn)
+    return [(st, Val(BOOL, z3.BoolVal(True)))]
+
+
+def _sf_use(self, n, st):
+    lem_fn = self.ev_pure(n.args[0], st).t
+    lem = getattr(lem_fn, "__pyvc_lemma__", None)
+    if lem is None:
+        raise Unsupported("use() of something that is not a @lemma")
+    given = [self.ev_pure(a, st) for a in n.args[1:]]
+    names = list(lem.types)
+    env, bound = {}, []
+    for k, p in enumerate(names):
+        ty = self.reg.parse(lem.types[p])
+        if k < len(given):
+            env[p] = self.coerce(given[k], ty)
+        else:
+            c = z3.Const(fresh_name("u_" + p), self.reg.sort(ty))
+            bound.append(c)
+            env[p] = Val(ty, c)
+    base = State()
+    base.ghost = dict(st.ghost)
+    base.heap = dict(st.heap)
+    self.binder_depth += 1 if bound else 0
+    self.using_lemma += 1
+    try:
+        body = self.truth(self.eval_spec_fn(base, lem_fn, env))
+    finally:
+        self.binder_depth -= 1 if bound else 0
+        self.using_lemma -= 1
+    self.axioms.append(z3.ForAll(bound, body) if bound else body)
+    self.lemmas_used.add(lem.name)
+    return [(st, Val(BOOL, z3.BoolVal(True)))]
+
+
 def _sf_forall(self, n, st, exists=False):
     lam = n.args[0]
     if not isinstance(lam, ast.Lambda):
@@ -937,7 +1159,7 @@ def _sf_forall(self, n, st, exists=False):
         c = z3.Const(fresh_name("q_" + p), self.reg.sort(ty))
         bound.append(c)
         s2.env[p] = Val(ty, c)
-    body = self.truth(self.ev_pure(lam.body, s2))
+    body = self.truth(self.ev_under_binder(lam.body, s2))
     q = z3.Exists(bound, body) if exists else z3.ForAll(bound, body)
     return [(st, Val(BOOL, q))]
 
@@ -975,7 +1197,7 @@ def _sf_hide(self, n, st):
         self.unfold_specs = prev
 
 
-SPECIAL_FORMS = {"hide": _sf_hide, "forall": _sf_forall, "exists": _sf_exists, "implies": _sf_implies, "old": _sf_old}
+SPECIAL_FORMS = {"hide": _sf_hide, "reveal": _sf_reveal, "use": _sf_use, "forall": _sf_forall, "exists": _sf_exists, "implies": _sf_implies, "old": _sf_old}
 
 _PURE_BUILTINS = {"len", "bool", "str", "int", "repr", "isinstance", "issubclass", "sorted", "reversed", "min", "max", "any",
                   "all", "set", "frozenset", "list", "tuple", "dict", "getattr", "hasattr", "abs", "sum", "ord", "chr",
